@@ -28,19 +28,6 @@ def uspecJ (s : USpec) : Json :=
   okJ [("wave", ratsJ s.wave), ("value", ratsJ s.value), ("wu", Json.str s.wu.name),
        ("vu", match s.vu with | some f => Json.str f.name | none => Json.null)]
 
-/-- `Spectrum.to(*units)`: units applied left to right; the first refusal stops the call (state as reached) -/
-def applyTo (H C : Rat) : USpec → List String → R (USpec × Option String)
-  | s, [] => pure (s, none)
-  | s, u :: rest =>
-    match WUnit.ofName? u with
-    | some w => applyTo H C (toWave w s) rest
-    | none =>
-      match FUnit.ofName? u with
-      | some f => match toFlux f H C s with
-        | some s' => applyTo H C s' rest
-        | none => pure (s, some "TypeError")
-      | none => pure (s, some "ValueError")
-
 def handle (op : String) (j : Json) : Option (R Json) :=
   match op with
   | "c14.wave_factor" => some do
@@ -60,7 +47,7 @@ def handle (op : String) (j : Json) : Option (R Json) :=
         | _ => pure none
       let H ← getRat j "H"; let C ← getRat j "C"
       let units ← (← getArr j "units").mapM (·.getStr?)
-      let (s, e) ← applyTo H C ⟨wave, value, wu, vu⟩ units.toList
+      let (s, e) := applyTo H C ⟨wave, value, wu, vu⟩ units.toList
       let base := uspecJ s
       pure (base.mergeObj (Json.mkObj [("exc", match e with | some x => Json.str x | none => Json.null),
                                        ("trapz", ratToJson (trapz s.wave s.value))]))
@@ -69,9 +56,11 @@ def handle (op : String) (j : Json) : Option (R Json) :=
       pure (okJ [("q", ratToJson (trapz wave value))])
   | "c14.planck" => some do
       let wu ← wunit (← getStr j "wu"); let vu ← funit (← getStr j "vu")
-      let w ← getFloat j "wave"; let T ← getFloat j "temp"; let pref ← getFloat j "pref"
+      let w ← getFloat j "wave"; let T ← getFloat j "temp"; let pi ← getFloat j "pi"
       let H ← getFloat j "H"; let C ← getFloat j "C"; let kB ← getFloat j "K"
-      pure (okJ [("v", floatToJson (planck Float.exp pref H C kB w T wu vu))])
+      let fn ← getStr j "fn"
+      let v := if fn == "exitance" then planckExitance Float.exp pi H C kB w T wu vu else planckRadiance Float.exp pi H C kB w T wu vu
+      pure (okJ [("v", floatToJson v)])
   | _ => none
 
 end Ops.C14
